@@ -143,7 +143,7 @@ structure GenOK (g : Game P M) (p : P) : Prop where
 /-- the order oracle permutes (at least: preserves membership of) the generated moves -/
 def OrderOK (o : Oracle M) : Prop := ∀ k (l : List M) x, x ∈ o.order k l ↔ x ∈ l
 
-theorem stage3_rule [DecidableEq M] (hb : BodyOK g p body Inv Cov Qb Qr) (cfg : Cfg) (o : Oracle M) (mg : MG M)
+theorem stage3_rule [DecidableEq M] (hb : BodyOK g p body Inv Cov Qb Qr) (cfg : SOpts) (o : Oracle M) (mg : MG M)
     (hord : OrderOK o) (hsorts : ∀ a s k, Inv a s → Inv a { s with sorts := k })
     (r? : Option M) (a : σ) (s : Eng M) (hi : Inv a s) :
     Sat (stage3 g cfg o p mg body r? a s)
@@ -163,7 +163,7 @@ theorem stage3_rule [DecidableEq M] (hb : BodyOK g p body Inv Cov Qb Qr) (cfg : 
     exact runList_rule hb _ _ a s hi
 
 /-- invariant-only version of the loop rule: no assumption on the game or on the order oracle -/
-theorem iterate_inv [DecidableEq M] (hb : BodyOK g p body Inv Cov Qb Qr) (cfg : Cfg) (o : Oracle M) (mg : MG M)
+theorem iterate_inv [DecidableEq M] (hb : BodyOK g p body Inv Cov Qb Qr) (cfg : SOpts) (o : Oracle M) (mg : MG M)
     (hsorts : ∀ a s k, Inv a s → Inv a { s with sorts := k })
     (a : σ) (s : Eng M) (hi : Inv a s) :
     Sat (iterate g cfg o p mg body a s) (LoopPost Inv Cov Qb Qr a (fun _ => False)) := by
@@ -210,7 +210,7 @@ theorem iterate_inv [DecidableEq M] (hb : BodyOK g p body Inv Cov Qb Qr) (cfg : 
       exact (andThen_rule hfirst (h3 r?)).mono (fun _ h => h.weaken (fun _ hc => absurd hc id))
   exact (andThen_rule (andThen_rule h0 h1) h23).mono (fun _ h => h.weaken (fun _ hc => absurd hc id))
 
-theorem iterate_rule [DecidableEq M] (hb : BodyOK g p body Inv Cov Qb Qr) (cfg : Cfg) (o : Oracle M) (mg : MG M)
+theorem iterate_rule [DecidableEq M] (hb : BodyOK g p body Inv Cov Qb Qr) (cfg : SOpts) (o : Oracle M) (mg : MG M)
     (hg : GenOK g p) (hord : OrderOK o) (hsorts : ∀ a s k, Inv a s → Inv a { s with sorts := k })
     (a : σ) (s : Eng M) (hi : Inv a s) :
     Sat (iterate g cfg o p mg body a s)
